@@ -12,6 +12,7 @@ import (
 // swarm configuration of one run
 type swarm struct {
 	tabs, multibyte, crlf, ellipsisInText bool
+	bareCR, blobs, manyLines              bool
 	longLines                             bool
 	giant                                 bool
 	faults                                []string // enabled fault kinds
@@ -25,10 +26,23 @@ const alphabet = "abcdefghijklmnopqrstuvwxyzABCDEFGHIJKLMNOPQRSTUVWXYZ0123456789
 
 var multi = []string{"é", "ß", "世", "界", "😀", "λ", "ж"}
 
+const blobAlphabet = "0123456789abcdefABCDEFghijklmnopqrstuvwxyzGHIJKLMNOPQRSTUVWXYZ_"
+
 func genLine(t *core.Tape, sw *swarm, n int) string {
 	var b strings.Builder
+	if sw.blobs && n > 60 && t.Chance(1, 3) {
+		// generated / minified code: one long identifier-like run, a little prose around it
+		b.WriteString("v := \"")
+		for b.Len() < n-2 {
+			b.WriteByte(blobAlphabet[t.Draw(len(blobAlphabet))])
+		}
+		b.WriteString("\"")
+		return b.String()
+	}
 	for b.Len() < n {
 		switch {
+		case sw.bareCR && t.Chance(1, 60):
+			b.WriteByte('\r') // a bare carriage return is ordinary content for go/token
 		case sw.tabs && t.Chance(1, 12):
 			b.WriteByte('\t')
 		case sw.multibyte && t.Chance(1, 14):
@@ -147,6 +161,9 @@ func Generate(t *core.Tape, opt core.RunOpt, agg *core.Agg) *Case {
 	sw.crlf = t.Chance(1, 5)
 	sw.ellipsisInText = t.Chance(1, 6)
 	sw.giant = t.Chance(1, 150)
+	sw.bareCR = t.Chance(1, 6)
+	sw.blobs = t.Chance(1, 4)
+	sw.manyLines = t.Chance(1, 5)
 	if !faultFree {
 		for _, f := range allFaults {
 			if t.Chance(1, 2) {
@@ -164,6 +181,10 @@ func Generate(t *core.Tape, opt core.RunOpt, agg *core.Agg) *Case {
 	lineCounts := make([][]int, nfiles)
 	for i := 0; i < nfiles; i++ {
 		nl := t.Range(1, 7)
+		if sw.manyLines {
+			// line numbers that change their width inside the excerpt window: 9|10, 99|100
+			nl = []int{9, 10, 11, 12, 99, 100, 101, 103}[t.Draw(8)]
+		}
 		f := File{Name: fmt.Sprintf("/sim/p/f%d.go", i), Content: core.Text(genContent(t, sw, limit, nl))}
 		lines, _ := splitLines([]byte(f.Content))
 		for _, l := range lines {
@@ -221,6 +242,15 @@ func genReport(t *core.Tape, c *Case, fi int, lens []int, limit int) Op {
 	ln := 1
 	if len(lens) > 0 {
 		ln = t.Range(1, len(lens))
+		if len(lens) >= 9 && t.Chance(2, 3) {
+			ln = []int{8, 9, 10, 98, 99, 100, 7, 97}[t.Draw(8)]
+			if ln > len(lens) {
+				ln = len(lens) - t.Draw(3)
+			}
+			if ln < 1 {
+				ln = 1
+			}
+		}
 	}
 	n := 0
 	if ln-1 < len(lens) {
